@@ -8,6 +8,8 @@ open Qx Qx.Driver Qx.C14
   dec <hex> <keyhex|->                   → fail | ok fits=<0|1> <msg>   (indeterminate fields masked when fits=0)
   hmac <keyhex|-> <texthex|->            → hex of the code's HMAC-SHA1
   hmacrfc <keyhex|-> <texthex|->         → hex of RFC 2104 HMAC-SHA1
+  encsz <n> <fill> <key|-> <0|1>         → length and CRC-32 of encode of a message with DATA = n bytes `fill`
+  decsz <n> <fill> <key|-> <0|1>         → refused | fail | ok | other: decode of that encoding compared with the message
   token <hex|->                          → hex of reservationToken() after setReservationToken
   crc <hex|->                            → decimal CRC-32 by the generated table
   crcspec <hex|->                        → decimal CRC-32 by the bitwise definition
@@ -119,6 +121,22 @@ def stepLine (_ : Unit) (line : String) : Unit × String :=
       | none => "fail"
       | some m => let fits := tlvFits b; s!"ok fits={if fits then 1 else 0} {showMsg (!fits) m}"
     | _, _ => "bad-op"
+  | ["encsz", n, fill, k, fp] =>
+    match n.toNat?, fill.toNat?, hexArg k with
+    | some n, some fill, some k =>
+      let b := encode sha1 (dataOnlyMsg (List.replicate n (UInt8.ofNat fill))) k (fp = "1")
+      s!"{b.length} {(Qx.Crypto.crc32Bitwise b).toNat}"
+    | _, _, _ => "bad-op"
+  | ["decsz", n, fill, k, fp] =>
+    match n.toNat?, fill.toNat?, hexArg k with
+    | some n, some fill, some k =>
+      let m := dataOnlyMsg (List.replicate n (UInt8.ofNat fill))
+      let b := encode sha1 m k (fp = "1")
+      if b.isEmpty then "refused"
+      else match decode sha1 b k with
+        | none => "fail"
+        | some d => if d = m then "ok" else "other"
+    | _, _, _ => "bad-op"
   | ["token", t] =>
     match hexArg t with
     | some t => toHex (setReservationToken t)
